@@ -252,7 +252,6 @@ func computeRow(env *Env, tree *Tree, id int, cfg RunCfg) (row *Row) {
 	if !row.Deterministic {
 		row.BindingsStable = true
 		norm := map[string]bool{}
-		base := bindingsKey(row.ClientStubs, row.Server, row.QF, nil)
 		declCount := map[string]int{}
 		dupCount := map[string]int{}
 		nAnalyzed := 0
@@ -291,7 +290,6 @@ func computeRow(env *Env, tree *Tree, id int, cfg RunCfg) (row *Row) {
 				}
 			}
 		}
-		_ = base
 		if len(norm) > 1 {
 			row.CodeDeterministic = false
 		}
@@ -434,7 +432,12 @@ func computeDev(env *Env, tree *Tree, fdp *descriptorpb.FileDescriptorProto, row
 			fillBindings(tmp, a, row.ID)
 			// the static code (type Configuration, …) is not part of the dev files: compare
 			// only the duplicates that involve generated names
-			d.SameBindings = bindingsKey(tmp.ClientStubs, tmp.Server, tmp.QF, nil) == bindingsKey(row.ClientStubs, row.Server, row.QF, nil)
+			if row.Deterministic {
+				d.SameBindings = bindingsKey(tmp.ClientStubs, tmp.Server, tmp.QF, nil) == bindingsKey(row.ClientStubs, row.Server, row.QF, nil)
+			} else {
+				// result type names vary from run to run: compare what is stable
+				d.SameBindings = stableBindingsKey(tmp) == stableBindingsKey(row)
+			}
 		} else {
 			d.SameBindings = (len(names) == 0) == (row.Files == 0)
 		}
@@ -498,6 +501,8 @@ func summarize(rows []*Row) map[string]any {
 	byOutcome := map[string]int{}
 	byClass := map[string]int{}
 	byStubs := map[string]int{}
+	byStubCount := map[string]int{}
+	okWithFile := 0
 	var dup, nondet, codeNondet, nofile, parseErr, badStr, devNondet, devOrder, devDiffer []int
 	for _, r := range rows {
 		byOutcome[r.Outcome]++
@@ -509,6 +514,8 @@ func summarize(rows []*Row) map[string]any {
 				nofile = append(nofile, r.ID)
 			} else {
 				byStubs[strings.Join(stubKeys(r), "+")]++
+				byStubCount[fmt.Sprint(len(r.ClientStubs))]++
+				okWithFile++
 			}
 		}
 		if len(r.Duplicates) > 0 {
@@ -549,6 +556,8 @@ func summarize(rows []*Row) map[string]any {
 		"by_outcome":                  byOutcome,
 		"by_diag_class":               byClass,
 		"ok_by_stub_set":              byStubs,
+		"ok_by_stub_count":            byStubCount,
+		"n_ok_with_file":              okWithFile,
 		"ok_without_file":             nz(nofile),
 		"rows_with_duplicates":        nz(dup),
 		"non_deterministic_rows":      nz(nondet),
@@ -579,14 +588,14 @@ func printSummary(rows []*Row, wall float64) {
 	fmt.Fprintf(os.Stderr, "gr table: %d rows in %.1fs\n", len(rows), wall)
 	fmt.Fprintf(os.Stderr, "  by outcome: %v\n", s["by_outcome"])
 	fmt.Fprintf(os.Stderr, "  by diagnostic class: %v\n", s["by_diag_class"])
-	fmt.Fprintf(os.Stderr, "  ok rows by client stub set: %v\n", s["ok_by_stub_set"])
+	fmt.Fprintf(os.Stderr, "  ok rows with a file: %d, by number of client stubs named Foo: %v\n", s["n_ok_with_file"], s["ok_by_stub_count"])
 	fmt.Fprintf(os.Stderr, "  ok rows without a file: %d\n", s["n_ok_without_file"])
 	fmt.Fprintf(os.Stderr, "  rows with duplicate declarations: %d %v\n", s["n_rows_with_duplicates"], compactIDs(s["rows_with_duplicates"].([]int)))
 	fmt.Fprintf(os.Stderr, "  non-deterministic rows: %d %v\n", s["n_non_deterministic_rows"], compactIDs(s["non_deterministic_rows"].([]int)))
 	fmt.Fprintf(os.Stderr, "  of these, rows whose code (not only comments) differs between runs: %d %v\n", len(s["code_non_deterministic_rows"].([]int)), compactIDs(s["code_non_deterministic_rows"].([]int)))
 	fmt.Fprintf(os.Stderr, "  parse errors: %v  method string mismatches: %v\n", s["parse_error_rows"], s["method_str_mismatch_rows"])
-	fmt.Fprintf(os.Stderr, "  dev=true: content non-deterministic %v, file order unstable in %d rows, bindings differ from single file in %v\n",
-		s["dev_non_deterministic"], s["n_dev_file_order_unstable"], s["dev_bindings_differ_rows"])
+	fmt.Fprintf(os.Stderr, "  dev=true: content non-deterministic in %d rows, file order unstable in %d rows, bindings differ from single file in %v\n",
+		len(s["dev_non_deterministic"].([]int)), s["n_dev_file_order_unstable"], compactIDs(s["dev_bindings_differ_rows"].([]int)))
 }
 
 func compactIDs(ids []int) string {
